@@ -50,14 +50,16 @@ def slacks {α} [Scalar α] (ncols : Nat) (rows : List (V3 α)) (normal : Option
 def run (α : Type) [Scalar α] [Codec α] (op : String) (c : Ctx) : Option (Rd String) :=
   match op with
   | "c15.polygon" => some do
-      -- in: ndim ncols rows hasNormal normal(3) ptol testSimple aligned ; out: normal(3) vsrc nsrc | E:
+      -- in: ndim ncols rows hasNormal normal(3) ptol testSimple aligned sweepAsserted ; out: normal(3) vsrc nsrc | E:
+      -- (sweepAsserted: the external sweep failed an internal assertion on the prepared vertices — caught, "not simple")
       let ndim ← Rd.nat c; let ncols ← Rd.nat c
       let rows : List (V3 α) ← Rd.list c (Rd.v3 c)
       let normal ← rdNormal c
       let ptol : α ← Rd.sc c
       let ts ← rdBool c
       let aligned : List (V3 α) ← Rd.list c (Rd.v3 c)
-      let r := Polygon.new ndim ncols rows normal ptol ts (fun _ _ => aligned)
+      let asserted ← rdBool c
+      let r := Polygon.newSweep ndim ncols rows normal ptol ts (fun _ _ => aligned) (fun _ => asserted)
       pure (reply r fun p => s!"{Out.v3 p.normal} {Out.int (srcInt p.verticesSrc)} {Out.int (srcInt p.normalSrc)}")
   | "c15.slacks" => some do
       -- in: ncols rows hasNormal normal(3) ptol ; out: normalSlack planarSlack
@@ -106,7 +108,7 @@ def run (α : Type) [Scalar α] [Codec α] (op : String) (c : Ctx) : Option (Rd 
       let rows : List (V3 α) ← Rd.list c (Rd.v3 c)
       let h ← Rd.int c
       let hull : List (V3 α) → Except String Nat := fun _ =>
-        if h == -2 then .error "ValueError:hull" else if h < 0 then .error "other:QhullError" else .ok h.toNat
+        if h == -2 then .error "ValueError" else if h < 0 then .error "QhullError" else .ok h.toNat
       pure (reply (ConvexPolyhedron.new rows hull) fun p =>
         s!"{Out.int p.vertices.length} {Out.int (srcInt p.verticesSrc)}")
   | "c15.spheropolyhedron" => some do
@@ -114,7 +116,7 @@ def run (α : Type) [Scalar α] [Codec α] (op : String) (c : Ctx) : Option (Rd 
       let radius : α ← Rd.sc c
       let h ← Rd.int c
       let hull : List (V3 α) → Except String Nat := fun _ =>
-        if h == -2 then .error "ValueError:hull" else if h < 0 then .error "other:QhullError" else .ok h.toNat
+        if h == -2 then .error "ValueError" else if h < 0 then .error "QhullError" else .ok h.toNat
       pure (reply (ConvexSpheropolyhedron.new rows radius hull) fun s =>
         s!"{Out.sc s.radius} {Out.int s.polyhedron.vertices.length}")
   | "c15.circle" => some do
